@@ -1,72 +1,26 @@
-(* ===== Calc.v ===== *)
-From Coq Require Import List Arith Bool QArith Qcanon Lia.
+(* ===== Calc.v : differentiate_term without sympy, SimpleFormula.differentiate (C20). No proofs in this file. =====
+   a term = list of factor expressions (distinct: Term de-duplicates); a factor is "affected" by a variable iff its
+   expression equals the variable; DTerm [] prints as the literal 1, DZero as the literal 0. *)
+From Coq Require Import List Arith Bool QArith Qcanon NArith.
 Import ListNotations.
+Require Import Struct.
 
-(* factors are identified by nat ids here; the real model uses expression strings *)
-Inductive dterm := DZero | DTerm (fs : list nat).      (* DTerm [] prints as the literal 1 *)
+Inductive dterm := DZero | DTerm (fs : list key).
 
-Definition mem (v : nat) (l : list nat) := existsb (Nat.eqb v) l.
-Definition remove (v : nat) (l : list nat) := filter (fun x => negb (Nat.eqb x v)) l.
+Definition mem (v : key) (l : list key) := existsb (keqb v) l.
+Definition remove (v : key) (l : list key) := filter (fun x => negb (keqb x v)) l.
 
-(* utils/calculus.py differentiate_term without sympy: one pass per variable, early zero *)
-Fixpoint diff (fs : list nat) (wrt : list nat) : dterm :=
+(* one pass per variable, early zero *)
+Fixpoint diff (fs : list key) (wrt : list key) : dterm :=
   match wrt with
   | [] => DTerm fs
   | v :: r => if mem v fs then diff (remove v fs) r else DZero
   end.
+(* SimpleFormula.differentiate: term by term, ordering preserved (OrderingMethod.NONE) *)
+Definition diff_formula (ts : list (list key)) (wrt : list key) : list dterm := map (fun t => diff t wrt) ts.
 
-Section Sem.
-Open Scope Qc_scope.
-Definition env := nat -> Qc.
-Definition upd (rho : env) (v : nat) (x : Qc) : env := fun w => if Nat.eqb w v then x else rho w.
-Fixpoint prod (rho : env) (fs : list nat) : Qc := match fs with [] => 1 | f :: r => rho f * prod rho r end.
-Definition sem (rho : env) (t : dterm) : Qc := match t with DZero => 0 | DTerm fs => prod rho fs end.
-
-Lemma prod_upd_notin rho v x fs : mem v fs = false -> prod (upd rho v x) fs = prod rho fs.
-Proof.
-  induction fs as [|f r IH]; [reflexivity|]. cbn [mem existsb prod]. intros H. apply orb_false_iff in H as [H1 H2].
-  unfold upd at 1. rewrite (Nat.eqb_sym f v), H1. rewrite IH by assumption. reflexivity.
-Qed.
-Lemma remove_notin v fs : mem v fs = false -> remove v fs = fs.
-Proof.
-  induction fs as [|f r IH]; [reflexivity|]. cbn [mem existsb]. intros H. apply orb_false_iff in H as [H1 H2].
-  unfold remove. cbn [filter]. rewrite (Nat.eqb_sym f v), H1. cbn [negb]. f_equal. apply IH. exact H2.
-Qed.
-Lemma mem_remove v fs : mem v (remove v fs) = false.
-Proof.
-  induction fs as [|f r IH]; [reflexivity|]. unfold remove. cbn [filter]. destruct (Nat.eqb f v) eqn:E; cbn [negb]; [exact IH|].
-  cbn [mem existsb]. rewrite (Nat.eqb_sym v f), E. exact IH.
-Qed.
-
-(* multilinear: the variable occurs at most once (Term de-duplicates factors) *)
-Lemma prod_split rho v fs : NoDup fs -> mem v fs = true -> prod rho fs = rho v * prod rho (remove v fs).
-Proof.
-  induction fs as [|f r IH]; [discriminate|]. cbn [mem existsb prod]. intros Hnd H. inversion Hnd as [|? ? Hnin Hnd']; subst.
-  unfold remove. cbn [filter]. fold (remove v r).
-  destruct (Nat.eqb v f) eqn:E.
-  - apply Nat.eqb_eq in E. subst f. rewrite Nat.eqb_refl. cbn [negb].
-    rewrite remove_notin; [reflexivity|]. destruct (mem v r) eqn:M; auto.
-    exfalso. apply Hnin. unfold mem in M. apply existsb_exists in M as (y & Hy & Ey). apply Nat.eqb_eq in Ey. subst. exact Hy.
-  - cbn [orb] in H. rewrite (Nat.eqb_sym f v), E. cbn [negb prod]. rewrite (IH Hnd' H). ring.
-Qed.
-
-(* one differentiation step is the exact finite difference, for every step h <> 0 *)
-Theorem diff_is_finite_difference rho v h fs : NoDup fs -> h <> 0 ->
-  sem rho (diff fs [v]) = (prod (upd rho v (rho v + h)) fs - prod rho fs) / h.
-Proof.
-  intros Hnd Hh. cbn [diff]. destruct (mem v fs) eqn:M.
-  - cbn [sem]. rewrite (prod_split rho v fs Hnd M). rewrite (prod_split (upd rho v (rho v + h)) v fs Hnd M).
-    rewrite (prod_upd_notin rho v (rho v + h) _ (mem_remove v fs)). unfold upd at 1. rewrite Nat.eqb_refl. field. exact Hh.
-  - cbn [sem]. rewrite (prod_upd_notin rho v (rho v + h) fs M). field. exact Hh.
-Qed.
-
-(* second derivative in the same variable is zero; absent variable gives zero; order of terms is a map *)
-Lemma diff_twice v fs : diff fs [v; v] = DZero.
-Proof. cbn. destruct (mem v fs); [rewrite mem_remove|]; reflexivity. Qed.
-Lemma diff_absent v fs r : mem v fs = false -> diff fs (v :: r) = DZero.
-Proof. intros H. cbn. rewrite H. reflexivity. Qed.
-Definition diff_formula (ts : list (list nat)) (wrt : list nat) := map (fun t => diff t wrt) ts.
-Lemma diff_formula_length ts wrt : length (diff_formula ts wrt) = length ts.
-Proof. apply map_length. Qed.
-End Sem.
-Print Assumptions diff_is_finite_difference.
+(* numeric semantics of a term over exact rationals: the product of its factors' values *)
+Definition env := key -> Qc.
+Definition upd (rho : env) (v : key) (x : Qc) : env := fun w => if keqb w v then x else rho w.
+Fixpoint prod (rho : env) (fs : list key) : Qc := match fs with [] => Q2Qc 1 | f :: r => (rho f * prod rho r)%Qc end.
+Definition sem (rho : env) (t : dterm) : Qc := match t with DZero => Q2Qc 0 | DTerm fs => prod rho fs end.
